@@ -17,6 +17,16 @@ CLAIMED = {
             "compared cell by cell; random larger calls and ts_mape calls are validated as traces by TLC.",
             "Trusts the symbolic-series argument (the function only moves cells, so y[t]=t identifies indices), "
             "TLC, and the out-of-tree import of /repo; delay1=1, use_all_past=False as the property states."),
+    "C11": ("DESIGN 4/C11",
+            "TLA+ spec PolyFeatures: TLC model checking of the block recurrence vs scikit-learn's enumeration + "
+            "spec->code replay of every configuration + event-level trace validation of the kernels",
+            "The two kernels and the separately coded name recurrence are transcribed action by action; TLC proves "
+            "for every configuration in the bound that they produce scikit-learn's combinations in order. Every "
+            "configuration is replayed on the real kernels with a recording output array and multiply callback "
+            "(write sequence, factorised columns, names, n_output_features_, both kinds), larger ones are validated "
+            "as traces event by event.",
+            "Columns are identified by factorising outputs on a row of distinct primes (data independence of the "
+            "kernels); scikit-learn's powers_ is used to cross-check the spec's enumeration."),
 }
 
 PENDING_REASON = "check not built yet in this round (planned: see DESIGN.md section 4); not claimed until it runs"
